@@ -237,6 +237,31 @@ class RT:
     def bool_or(self, thunks):
         return self._bool_chain(thunks, False)
 
+    def contains(self, item, container, negate):
+        """`item in container` inside a comprehension body: containers that can answer symbolically (method sym_contains) do so at a
+        bound variable; everything else uses python's operator"""
+        if ctx().qguards and hasattr(container, "sym_contains"):
+            t = lift(container.sym_contains(item))
+            return Sym(z3.Not(t) if negate else t)
+        r = item in container
+        return (not r) if negate else r
+
+    def if_exp(self, test, then, orelse):
+        """`a if test else b` inside a comprehension body: at a bound variable with a symbolic test both arms are evaluated and joined
+        by an if-then-else term (scalar arms only)"""
+        if isinstance(test, Sym) and test.t.sort() == BOOL and ctx().qguards:
+            a, b = then(), orelse()
+            ta, tb = lift(a), lift(b)
+            if ta.sort() != tb.sort():
+                if ta.sort() == INT and tb.sort() == REAL:
+                    ta = z3.ToReal(ta)
+                elif ta.sort() == REAL and tb.sort() == INT:
+                    tb = z3.ToReal(tb)
+                else:
+                    raise Unsupported("conditional expression with arms of different sorts")
+            return Sym(z3.If(test.t, ta, tb))
+        return then() if test else orelse()
+
     def bool_not(self, v):
         if isinstance(v, Sym) and v.t.sort() == BOOL and ctx().qguards:
             return Sym(z3.Not(v.t))
